@@ -64,7 +64,9 @@ def _krome_num(draw, x):
     mant = mant.rstrip("0").rstrip(".") if "." in mant else mant
     if "." not in mant:
         mant += "."
-    return f"{mant}{'d' if style == 'd' else 'e'}{int(ex)}"
+    # the exponent as Fortran's ES/D edit descriptors and C's %e print it (explicit sign, two digits), or bare
+    ex_t = f"{int(ex):+03d}" if draw(st.integers(0, 2)) == 0 else str(int(ex))
+    return f"{mant}{'d' if style == 'd' else 'e'}{ex_t}"
 
 
 @st.composite
